@@ -608,7 +608,8 @@ def oracle_select(recs, q):
 
 def lattice(recs):
     edges = sorted({r["start"] for r in recs if r["start"] is not None} | {r["stop"] for r in recs if r["stop"] is not None})
-    return sorted({x for e in edges for x in (e - 1, e, e + 1) if x >= 0})
+    # position 0 (the first position of every sequence) is a boundary value of its own
+    return sorted({0} | {x for e in edges for x in (e - 1, e, e + 1) if x >= 0}) if edges else []
 
 
 def gen_queries(rng, recs, n_windows):
